@@ -983,6 +983,19 @@ func (f *Frame) applyContract0(in ssa.Instruction, ct *Contract, fn *ssa.Functio
 		t := ee.boolClause(en)
 		if len(bound) > 0 {
 			c.quant = true
+			if len(bound) == 1 && strings.HasSuffix(bound[0], " Int)") {
+				// index-like ghost parameter: reads at base+param become patterns (see shiftQuant)
+				bn := strings.TrimSuffix(strings.TrimPrefix(bound[0], "("), " Int)")
+				jn := qsym(c.freshName("j_gp"))
+				if nb, pats, ok := shiftQuant(t, bn, jn); ok {
+					var ps []string
+					for _, p := range pats {
+						ps = append(ps, ":pattern ("+p+")")
+					}
+					c.assume(g, fmt.Sprintf("(forall ((%s Int)) (! %s %s))", jn, nb, strings.Join(ps, " ")))
+					continue
+				}
+			}
 			t = "(forall (" + strings.Join(bound, " ") + ") " + t + ")"
 		}
 		c.assume(g, t)
